@@ -11,7 +11,7 @@ import pipeline as pl
 
 CODEC = {'C09': 'uper', 'C10': 'oer'}
 NSHARDS = int(os.environ.get('VERIF_NPROC', '16'))
-TLC_WORKERS = int(os.environ.get('VERIF_TLC_WORKERS', '4'))
+TLC_WORKERS = int(os.environ.get('VERIF_TLC_WORKERS', '2'))
 
 INVARIANTS = ['CEmit', 'CValuesAdmitted', 'CStructInRange', 'CStructPathsDistinct', 'COutsideStaysOutside',
               'CProjectionWellFormed']
@@ -24,7 +24,10 @@ def cgen_cfg(codec, depth, rich):
 
 def generate_cases(run, codec, tier):
     """Binding A universe: BFS over CGen (+ simulation for deeper nestings)."""
-    if tier == 'quick':
+    if tier == 'smoke':        # sensitivity demonstrations: the boundary tables only (about 80 types, 3 modules)
+        bfs = [(0, False)]
+        sim = None
+    elif tier == 'quick':
         bfs = [(1, False)]
         sim = ('num=6', 3)
     else:
@@ -35,10 +38,11 @@ def generate_cases(run, codec, tier):
         out, res = pl.tlc_generate(run, 'CGen', cgen_cfg(codec, d, rich), 'gen%d.ndjson' % n, workers=TLC_WORKERS,
                                    what='CGen %s BFS depth<=%d rich=%s' % (codec, d, rich), heap='4g')
         cases += pl.dedup_cases(out, 'g%d' % n)
-    out, res = pl.tlc_generate(run, 'CGen', cgen_cfg(codec, sim[1], True), 'gensim.ndjson', workers=1,
-                               simulate=sim[0], depth=sim[1] + 1, what='CGen %s simulate %s depth %d' % (codec, sim[0], sim[1]),
-                               heap='4g')
-    cases += pl.dedup_cases(out, 's')
+    if sim:
+        out, res = pl.tlc_generate(run, 'CGen', cgen_cfg(codec, sim[1], True), 'gensim.ndjson', workers=1,
+                                   simulate=sim[0], depth=sim[1] + 1, what='CGen %s simulate %s depth %d' % (codec, sim[0], sim[1]),
+                                   heap='4g')
+        cases += pl.dedup_cases(out, 's')
     seen, uniq = set(), []
     for c in cases:
         h = hashlib.sha1(json.dumps([c['env'], c['vals']], sort_keys=True).encode()).hexdigest()
